@@ -316,6 +316,33 @@ class SentGen:
         return q(v, o(self.sentence(d - 1, bound + (v,), arities, wild, v),
                       self.sentence(d - 1, bound + (v,), arities, wild, need)))
 
+    def binding(self, d: int):
+        """Binding stress: a tiny pool of variables (x, y), quantifiers chosen regardless of what is
+        bound, so that vacuous, re-bound, free and sibling-reused variables all occur often — e.g.
+        `K VxFx VxFa` (second quantifier vacuous although x was used under the first)."""
+        rng = self.rng
+        pool = [Variable(0, 0), Variable(1, 0)]
+        if d <= 1 or rng.random() < 0.15:
+            if rng.random() < 0.2:
+                self._bump('Atomic')
+                return Atomic(rng.randrange(2), 0)
+            ar = rng.choice([1, 1, 2])
+            pred = Predicate(ar - 1, 0, ar)
+            self._bump(f'user/{ar}')
+            return pred(*(rng.choice(pool + [Constant(0, 0), Constant(0, 0)]) for _ in range(ar)))
+        r = rng.random()
+        if r < 0.15:
+            o = rng.choice(OPS1)
+            self._bump(o.name)
+            return o(self.binding(d - 1))
+        if r < 0.55:
+            o = rng.choice(OPS2)
+            self._bump(o.name)
+            return o(self.binding(d - 1), self.binding(d - 1))
+        q = rng.choice(QUANTS)
+        self._bump(q.name)
+        return q(rng.choice(pool), self.binding(d - 1))
+
     def predicated(self, bound, arities, wild, need):
         rng = self.rng
         r = rng.random()
